@@ -33,12 +33,19 @@ PlainPaths ==
   \cup { Rel(<<d, f>>, t) : d \in Names, f \in Names, t \in BOOLEAN }
   \cup { Rel(d \o <<f>>, t) : d \in Dirs2, f \in Names, t \in BOOLEAN }
   \cup { Rel(d \o <<f>>, t) : d \in Dirs3, f \in Names, t \in BOOLEAN }
+Abs(c, t) == [a |-> TRUE, c |-> c, t |-> t]
 DegeneratePaths ==
   { Rel(<<>>, FALSE),                          \* ""
-    [a |-> TRUE, c |-> <<>>, t |-> FALSE],      \* "/"
+    Abs(<<>>, FALSE),                          \* "/"
+    Abs(<<>>, TRUE),                           \* "//"
     Rel(<<DotC>>, FALSE),                      \* "."
+    Rel(<<DotC>>, TRUE),                       \* "./"
+    Abs(<<DotC>>, FALSE),                      \* "/."
     Rel(<<DotDotC>>, FALSE),                   \* ".."
-    Rel(<<N_m, DotDotC>>, FALSE) }             \* "m/.."
+    Rel(<<DotDotC>>, TRUE),                    \* "../"
+    Abs(<<DotDotC>>, FALSE),                   \* "/.."
+    Rel(<<N_m, DotDotC>>, FALSE),              \* "m/.."
+    Rel(<<N_m, DotDotC>>, TRUE) }              \* "m/../"
 Paths == PlainPaths \cup DegeneratePaths
 
 ASSUME \A p \in Paths : InScope(p)
